@@ -257,3 +257,42 @@ PROPS["C10"] = dict(
             "absent-until thresholds, newest timestamp, output units, unit panics, shift invariance (tier S); exactness on linear signals "
             "(tier R). Not proved: binary32 rounding (the property's comparison against an f64 reference with a forward error bound).",
 )
+
+import extras
+
+PROPS["C16"] = dict(
+    gen=cases.gen_C16,
+    extra=extras.c16_extra,
+    mask={"cat", "time", "unit", "float"},
+    rule="harness built with --cfg rrtk_verif (scratch arrays poisoned with 0x7F): n-ary sum and product at arity 1..8 x all 2^N "
+         "absent/present patterns (f32 payload; Quantity payload up to arity 4), terminal state read for all own/partner presence "
+         "combinations connected and unconnected, Axle::new for 0..8 terminals followed by reads/updates — bit-for-bit against the model, "
+         "so a read of an unwritten slot (3.39e38 @ t=0x7F7F...) cannot go unnoticed. Lifetime half: 11 compile probes (one per terminal "
+         "accessor) + 3 for the unsafe raw-pointer constructors + 2 controls",
+    trusted_base=COMMON_TB + ["slot-level model Rrtk/Scratch.lean (Option slots; fault = read of an unwritten slot or index out of range)",
+                              "rustc's borrow checker for the compile probes"],
+    assumptions=["the lifetime half ('no safe program obtains a reference that outlives its object') is a statement about what rustc "
+                 "accepts: it is NOT decided by the Lean model; the compile probes are exploration and are reported as such"],
+    partial="PROOF for the scratch half (all arities, all patterns: only written slots are read, no index out of range, result = list-level "
+            "model). The lifetime half is outside the technique (compile probes only; 11 accessors are known findings F4).",
+    level_text="Proof (Lean 4) for the scratch-array half for all arities and patterns, tied to the code by bit-exact correspondence under "
+               "memory poisoning; the lifetime-soundness half cannot be expressed in the model and is only explored by compile probes "
+               "(known findings F4) — C16 is claimed as partial.",
+)
+
+PROPS["C17"] = dict(
+    gen=cases.gen_C17,
+    extra=extras.c17_extra,
+    mask={"cat", "time", "float"},
+    rule="six Reference variants x random sequences of up to 12 operations over {clone, to_dyn!, borrow+read, borrow_mut+write, "
+         "increment, drop handle, liveness of the target}; to_dyn! on every variant; 2..8 real threads x 1e3 (1e5) locked increments on the "
+         "Arc/static Mutex/RwLock variants, final counter = n*k; a downstream crate declaring no features of its own (thorough: also "
+         "'alloc', 'alloc+std') converting Rc / static RwLock / static pointer References with to_dyn! and checking aliasing",
+    trusted_base=COMMON_TB + ["Gen/ToDyn.lean is regenerated from src/reference.rs (macro definitions, their item-level cfgs, arms and "
+                              "in-body cfgs) on every run and the theorems to_dyn_* are re-checked against it",
+                              "std::sync::{Mutex,RwLock}, Rc, Arc, RefCell implement the lock / refcount protocol the model assumes "
+                              "(memory model, data-race freedom): trusted; real threads only sample schedules"],
+    assumptions=["the lock-protocol theorem is about every schedule of the abstract protocol, not about the hardware memory model"],
+    partial="Proved: aliasing/lifetime bookkeeping over all op sequences, no lost update for every schedule of the lock protocol, to_dyn! "
+            "arm coverage for every caller feature set from the regenerated table. Trusted: that std's locks implement the protocol.",
+)
